@@ -299,6 +299,12 @@ class UnscentedKalmanFilter(KalmanFilter):
         # STEP 0: Re-sample the sigma points around predicted (sampled) state estimate
         if self._resample:
             self.sigma_points = self.generateSigmaPoints(self.pred_x, self.pred_p)
+            # [NOTE]: the state residuals must refer to the redrawn sigma points (not the propagated ones), otherwise
+            #   the cross covariance pairs residuals of two different sigma point sets
+            resampled_mean = self.sigma_points.dot(self.mean_weight)
+            self.sigma_x_res = self.sigma_points - resampled_mean.reshape((self.x_dim, 1)).dot(
+                ones((1, self.num_sigmas)),
+            )
 
         # STEP 1: Calculate the Measurement Matrix (H)
         self.calculateMeasurementMatrix(observations)
